@@ -252,6 +252,12 @@ def _plan_opp(ch):
     p["tail"] = {"20": _opp_vector(ch, 4, 0x20, trap), "21": _opp_vector(ch, 4, 0x21, trap),
                  "m21": _opp_vector(ch, 8, 0x21, trap)}
     p["tail_same"] = ch.flag("tail_same", 0.6)       # the tail repeats one vector (switches at rest) or keeps changing
+    if trap:
+        # the switches already rest on the tail vectors while the last noise hits the line
+        p["tail_same"] = True
+        for op in ops[len(ops) // 2:]:
+            for k in ("20", "21", "m21"):
+                op[k] = p["tail"][k]
     return p
 
 
